@@ -189,8 +189,8 @@ fn eval_dna(dna_bytes: &[u8], ctx: &mut Ctx) -> Result<(), (Failure, Value)> {
 
 fn worker(ctx: &mut Ctx) {
     let cases = match ctx.cfg.tier {
-        Tier::Quick => 4_000u64,
-        Tier::Thorough => 80_000u64,
+        Tier::Quick => 24_000u64,
+        Tier::Thorough => 400_000u64,
     };
     let run = DnaRun {
         cases: ctx.cfg.share(cases),
